@@ -12,7 +12,7 @@
      ec_layout ...                               the list of (start, length) windows
      full_head pair first cls sep                what precedes the window in every chunk *)
 From RV Require Import Prelude.
-From Chunks Require Import ModelChunks Chunks_core Chunks_layout Chunks_encode.
+From Chunks Require Import ModelChunks Chunks_core Chunks_layout Chunks_encode Chunks_oracle.
 Open Scope N_scope.
 
 (* (0) the private helper: chunks_with_overlap panics iff overlap >= chunk_size and otherwise
@@ -151,6 +151,23 @@ Theorem C29_windows_cover : forall pair t1 t2 limit ov cls sep chs first second,
     /\ nth_error (ec_layout pair first second limit ov cls sep) k = Some (st, n)
     /\ (st <= i)%nat /\ (i < st + n)%nat.
 Proof. exact ok_cover. Qed.
+
+(* (6) reflection (soundness) of the executable oracle used by the correspondence check: when
+       [judge] reports no failure code for an observed non-empty list of chunks, those chunks
+       satisfy the property stated in Prop without reference to the model ([observed_ok],
+       Chunks_oracle.v): there are windows ws, one per chunk, with
+         chunk = head ++ T[window] ++ [SEP] (whole first sequence in the head for a pair),
+         type-id count right, length <= max_chunk_len,
+         each window non-empty, inside T, no longer than the requested window,
+         first start = 0, consecutive windows advance and overlap by exactly `overlap`,
+         last end = |T|. *)
+Theorem C29_oracle_sound : forall (pair : bool) first second t2 limit ov cls sep chs,
+  sp_err cls = false -> sp_err sep = false ->
+  (if pair then t2 else Some (@nil N)) = Some second ->
+  chs <> [] ->
+  judge pair (Some first) t2 limit ov cls sep (Chunks chs) = [] ->
+  observed_ok pair first second limit ov cls sep chs.
+Proof. exact judge_sound. Qed.
 
 (* non-vacuity: a call with several full windows, a remainder, special tokens, and each of the
    four outcome classes *)
